@@ -52,6 +52,7 @@ template <class... V> struct checks {
     copy_and_convert_pixels(v, w, default_color_converter()); copy_and_convert_pixels(v, s, default_color_converter()); copy_and_convert_pixels(s, w, default_color_converter());
     (void)equal_pixels(v, w); (void)equal_pixels(v, s); (void)equal_pixels(s, w);
     fill_pixels(v, rgb8_pixel_t()); for_each_pixel(v, fn1());
+    fill_pixels(v, bgr8_pixel_t()); fill_pixels(v, rgb16_pixel_t()); fill_pixels(v, gray8_pixel_t());   // compatible by colour; same colour space, other depth; other colour space
     matrix3x2<double> m;
     resample_pixels(v, w, m, nearest_neighbor_sampler()); resample_pixels(v, s, m, bilinear_sampler()); resample_pixels(s, w, m, nearest_neighbor_sampler());
     (void)(v == w); (void)(v != w); av c(v); c = w; (void)c.dimensions(); (void)c.num_channels(); (void)c.width(); (void)c.height(); (void)c.size();
@@ -140,6 +141,7 @@ def run(rep):
     rep.floor("obligations:D2", 60)
     rep.floor("rule:D2-factory", 30)
     rep.floor("rule:D1-functor", 6)
+    rep.floor("rule:D1-fill-dispatch", 4)
     rep.floor("rule:D1-incompatible", 2)
     rep.floor("compatible_pairs_of_different_types", 1)
 
@@ -266,6 +268,23 @@ def forwarding(rep, fns):
             rep.count("obligations:D1")
             (rep.ok("D1-functor", "fill_pixels_fn1<true>::apply" + f["full"][-10:], cs) if cs == ["fill_pixels($0,$1)"] else
              rep.violation("D1-functor", "D1:fill_pixels_fn1<true>::apply", R.fn_where(f), {"calls": cs}))
+        if nm.endswith("fill_pixels_fn::operator()"):
+            # the held view is filled iff the value is a compatible pixel (same colour space AND same channel type); otherwise bad_cast, destination untouched
+            def psig(t):
+                m = re.search(r"pixel<([^,]+), boost::gil::layout<boost::mp11::mp_list<([^>]*)>", t) or re.search(r"planar_pixel_(?:iterator|reference)<([^,*&]+?) ?[*&], boost::mp11::mp_list<([^>]*)>", t)
+                return (m.group(1).replace("const ", "").strip(), m.group(2)) if m else None
+            vs, ps = psig(f["full"].split("operator()<", 1)[-1]), psig(f.get("cls", ""))
+            tags = [("true" in (c["callee"].get("cls") or "")) for c, _ in R.find(f["body"], lambda x: x.get("k") == "Call" and "fill_pixels_fn1<" in ((x.get("callee") or {}).get("cls") or ""))]
+            if vs and ps and tags:
+                rep.count("obligations:D1")
+                rep.count("rule:D1-fill-dispatch")
+                want = vs == ps
+                key = "D1:fill_pixels_fn::operator():%s value into %s view" % ("/".join(ps)[:60], "/".join(vs)[:60])
+                if all(t == want for t in tags):
+                    rep.ok("D1-dispatch", key, {"compatible": want})
+                else:
+                    rep.violation("D1-dispatch", key, R.fn_where(f), {"view": vs, "value": ps, "pixels are compatible": want, "path taken": "fill" if tags[0] else "throw",
+                                  "example": "fill_pixels(any_image_view holding rgb8, rgb16_pixel_t(0x1234,..)): no bad_cast, the view is overwritten with the truncated value 0x34"})
         if nm.endswith("for_each_pixel_fn::operator()"):
             rn = R.param_renamer(f)
             cs = [rn(R.key(c)) for c, p in R.calls_in(f["body"], lambda n: n == "boost::gil::for_each_pixel")]
